@@ -32,14 +32,16 @@ Inductive yaction :=
 | YObsF (sid : nat) (st : nat)                              (* observe stream.next_float() (recorded as its numerator) *)
 | YFire (et : nat)                                          (* producer.fire(event type et, serial number) *)
 | YSub (et l : nat)                                         (* producer.add_listener(et, listener l) *)
-| YUnsub (et l : nat).                                      (* producer.remove_listener(et, listener l) *)
+| YUnsub (et l : nat)                                       (* producer.remove_listener(et, listener l) *)
+| YSchedPre (j : nat).                                      (* simulator.schedule_event(the j-th pre-built SimEvent), at most once per replication *)
 
 Record ymodel := mkYModel {
   ym_prog : list (list yaction);      (* 0: construct_model body, h: handler h *)
   ym_lst : list (list yaction);       (* l: what listener l does when notified *)
   ym_subs : list (nat * nat);         (* (event type, listener) subscribed in construct_model, in this order *)
   ym_stats : sspec;
-  ym_streams : list (list Z)          (* raw outputs of each stream after (re-)seeding *)
+  ym_streams : list (list Z);         (* raw outputs of each stream after (re-)seeding *)
+  ym_pre : list (Z * Z * nat)         (* SimEvent objects built before initialize: (time, priority, handler) *)
 }.
 
 Record dlv := mkDlv { d_et : nat; d_l : nat; d_ser : nat; d_clock : Z }.
@@ -51,15 +53,20 @@ Record ysim := mkY {
   y_ser : nat;                        (* serial number of the next fired event *)
   y_dlv : list dlv;                   (* deliveries to user listeners, newest first *)
   y_drw : list (nat * Z);             (* (stream, raw output) of every draw, newest first *)
-  y_mdl : mdl
+  y_mdl : mdl;
+  y_pre : list Z;                     (* the ids the pre-built SimEvent objects got when they were built *)
+  y_pdone : list nat                  (* pre-built events already handed over in this replication *)
 }.
 
 Definition with_sim (y : ysim) (s : sim) : ysim :=
-  mkY s (y_subm y) (y_str y) (y_ser y) (y_dlv y) (y_drw y) (y_mdl y).
+  mkY s (y_subm y) (y_str y) (y_ser y) (y_dlv y) (y_drw y) (y_mdl y) (y_pre y) (y_pdone y).
 Definition with_subm (y : ysim) (m : PS.submap) : ysim :=
-  mkY (y_sim y) m (y_str y) (y_ser y) (y_dlv y) (y_drw y) (y_mdl y).
+  mkY (y_sim y) m (y_str y) (y_ser y) (y_dlv y) (y_drw y) (y_mdl y) (y_pre y) (y_pdone y).
 
-Definition y0 (st : strategy) : ysim := mkY (init_sim st) [] [] 0 [] [] (mkMdl [] []).
+(* a brand-new simulator; pre: the ids of the SimEvent objects built before (all
+   below the id counter, in the order of their construction) *)
+Definition y0p (st : strategy) (pre : list Z) : ysim := mkY (init_sim st) [] [] 0 [] [] (mkMdl [] []) pre [].
+Definition y0 (st : strategy) : ysim := y0p st [].
 
 Fixpoint set_nth {A} (n : nat) (v : A) (l : list A) : list A :=
   match l, n with
@@ -72,7 +79,7 @@ Fixpoint set_nth {A} (n : nat) (v : A) (l : list A) : list A :=
 Definition draw (st : nat) (y : ysim) : option (Z * ysim) :=
   match nth st (y_str y) [] with
   | k :: r => Some (k, mkY (y_sim y) (y_subm y) (set_nth st r (y_str y)) (y_ser y) (y_dlv y)
-                           ((st, k) :: y_drw y) (y_mdl y))
+                           ((st, k) :: y_drw y) (y_mdl y) (y_pre y) (y_pdone y))
   | [] => None
   end.
 
@@ -81,6 +88,25 @@ Definition yflag (y : ysim) : ysim := with_sim y (raise_flag (y_sim y)).
 Section Exec.
 Variable nint : Z -> Z -> Z -> Z.       (* next_int lo hi (raw output) *)
 Variable M : ymodel.
+
+(* schedule_event(event) for a SimEvent object built before initialize: the event
+   keeps the id it got at construction; the time test of schedule_event *)
+Definition memn (j : nat) (l : list nat) : bool := existsb (Nat.eqb j) l.
+
+Definition put_pre (e : ev) (s : sim) : sim :=
+  set_created (created s ++ [e]) (set_pend (ins e (pend s)) s).
+
+Definition sched_pre (y : ysim) (j : nat) : ysim :=
+  if memn j (y_pdone y) then y
+  else
+    match nth_error (ym_pre M) j, nth_error (y_pre y) j with
+    | Some (tm, prio, h), Some pid =>
+        let s := y_sim y in
+        let s' := if tm <? clock s then out ORefused s
+                  else out OAccepted (put_pre (mkEv tm prio pid (HUser h) (length (created s))) s) in
+        mkY s' (y_subm y) (y_str y) (y_ser y) (y_dlv y) (y_drw y) (y_mdl y) (y_pre y) (j :: y_pdone y)
+    | _, _ => y
+    end.
 
 (* every action but fire *)
 Definition ystep (md : hmode) (y : ysim) (a : yaction) : ysim * bool :=
@@ -106,6 +132,7 @@ Definition ystep (md : hmode) (y : ysim) (a : yaction) : ysim * bool :=
   | YSub et l => (with_subm y (PS.sub_add et l (y_subm y)), false)
   | YUnsub et l => (with_subm y (PS.sub_remove et l (y_subm y)), false)
   | YFire _ => (y, false)
+  | YSchedPre j => (sched_pre y j, false)
   end.
 
 Inductive item :=
@@ -116,10 +143,11 @@ Definition lbody (l : nat) : list yaction := nth l (ym_lst M) [].
 Definition hbody (h : nat) : list yaction := nth h (ym_prog M) [].
 
 Definition log_dlv (et l ser : nat) (y : ysim) : ysim :=
-  mkY (y_sim y) (y_subm y) (y_str y) (y_ser y) (mkDlv et l ser (clock (y_sim y)) :: y_dlv y) (y_drw y) (y_mdl y).
+  mkY (y_sim y) (y_subm y) (y_str y) (y_ser y) (mkDlv et l ser (clock (y_sim y)) :: y_dlv y) (y_drw y) (y_mdl y)
+      (y_pre y) (y_pdone y).
 
 Definition bump_ser (y : ysim) : ysim :=
-  mkY (y_sim y) (y_subm y) (y_str y) (S (y_ser y)) (y_dlv y) (y_drw y) (y_mdl y).
+  mkY (y_sim y) (y_subm y) (y_str y) (S (y_ser y)) (y_dlv y) (y_drw y) (y_mdl y) (y_pre y) (y_pdone y).
 
 (* what firing pushes: one marker per subscriber of the snapshot, in list order *)
 Definition fire_items (et : nat) (y : ysim) : list item :=
@@ -247,12 +275,12 @@ Definition ydo_init (hf : nat) (y : ysim) (r : repl) : ysim * cres * bool :=
     let n := length (obs s) in
     let m0 := mkMdl [] (map (cut_obj n) (m_objs (y_mdl y))) in
     let '(m1, ok) := build_stats n (ym_stats M) m0 in
-    if negb ok then (mkY s (y_subm y) (y_str y) (y_ser y) (y_dlv y) (y_drw y) m1, ResRefused, true)
+    if negb ok then (mkY s (y_subm y) (y_str y) (y_ser y) (y_dlv y) (y_drw y) m1 (y_pre y) (y_pdone y), ResRefused, true)
     else
       let s0 := set_pend [] s in
       let s1 := match worker s0 with WNone => s0 | _ => do_cleanup s0 end in
       let s2 := set_created [] (set_clock (r_start r) (set_rep (Some r) (set_worker WAlive s1))) in
-      let ya := mkY s2 initial_subs (ym_streams M) 0 (y_dlv y) (y_drw y) m1 in
+      let ya := mkY s2 initial_subs (ym_streams M) 0 (y_dlv y) (y_drw y) m1 (y_pre y) [] in
       let '(y3, failed) := yexec hf InConstruct ya (hbody 0) in
       let y4 := if failed then yflag y3 else y3 in
       let s5 := set_ps PInit (set_rs RInit (y_sim y4)) in
@@ -305,7 +333,7 @@ Fixpoint y_hist (nint : Z -> Z -> Z -> Z) (fuel hf : nat) (y : ysim) (h : list (
 (* ------------------------------------------------------------------ *)
 (** * Embedding of Sim/Model.v programs *)
 Definition embed (p : program) : ymodel :=
-  mkYModel (map (map YA) p) [] [] [] [].
+  mkYModel (map (map YA) p) [] [] [] [] [].
 
 (* ------------------------------------------------------------------ *)
 (** * Correspondence with the implementation (harness/c07.py, c06.py) *)
@@ -323,13 +351,14 @@ Record ycase := mkYCase {
   yc_exp : expect;
   yc_dlv : list dlv;
   yc_drw : list (nat * Z);
-  yc_reported : list (nat * skind * list obsrec)
+  yc_reported : list (nat * skind * list obsrec);
+  yc_pre : list Z        (* ids of the pre-built events: below the counter, in construction order *)
 }.
 
 Definition HFUEL : nat := 3000.
 
 Definition ycase_parts (nint : Z -> Z -> Z -> Z) (c : ycase) : bool * list bool :=
-  let '(y, sn, bad) := y_hist nint FUEL HFUEL (y0 (yc_strat c)) (yc_hist c) in
+  let '(y, sn, bad) := y_hist nint FUEL HFUEL (y0p (yc_strat c) (yc_pre c)) (yc_hist c) in
   let s := y_sim y in
   let e := yc_exp c in
   (flag s || bad,
@@ -353,6 +382,6 @@ Fixpoint ycodes_from (nint : Z -> Z -> Z -> Z) (i : nat) (want : nat) (cs : list
   end.
 
 Definition ycase_view (nint : Z -> Z -> Z -> Z) (c : ycase) :=
-  let '(y, sn, bad) := y_hist nint FUEL HFUEL (y0 (yc_strat c)) (yc_hist c) in
+  let '(y, sn, bad) := y_hist nint FUEL HFUEL (y0p (yc_strat c) (yc_pre c)) (yc_hist c) in
   let s := y_sim y in
   (sn, user_trace s, rev (outs s), rev (ntfs s), user_obs s, user_canc s, rev (y_dlv y), rev (y_drw y), yreported y).
